@@ -124,3 +124,14 @@ func vrtSameValue(a, b wt.Value) bool {
 	}
 	return a == b
 }
+
+// vrtCmdSecondImage: the second file of a comparison.  For all-archive selections on a
+// multi-archive layout (thorough tier) it is a concrete never-written file, so that the product
+// of per-slot case splits of two fully symbolic multi-archive files does not arise.
+func vrtCmdSecondImage(h *wt.Header, tag string, now wt.Timestamp, allOnMulti bool) []byte {
+	if allOnMulti {
+		return vrtConcreteImage(h)
+	}
+	img, _ := vrtCmdInvImage(h, tag, now)
+	return img
+}
